@@ -1912,6 +1912,8 @@ where
             return (old_count, 1);
         }
 
+        anda_db_utils::verif_point!("bm25.compact.after_snapshot");
+
         // Step 2: Sort by size descending for better packing.
         token_sizes.sort_unstable_by_key(|b| std::cmp::Reverse(b.1));
 
@@ -1956,6 +1958,7 @@ where
 
         // Step 4: Rebuild buckets.
         self.buckets.clear();
+        anda_db_utils::verif_point!("bm25.compact.after_clear");
         let new_count = bins.len();
         let max_id = new_count.saturating_sub(1) as u32;
 
